@@ -21,6 +21,7 @@ mod p16;
 mod p17;
 mod p18;
 mod p18b;
+mod p18c;
 mod p19;
 mod p20;
 mod p08;
